@@ -94,6 +94,7 @@ func c09Run(c *vcore.Ctx) *vcore.Violation {
 	}
 	script = append(script, genSideShow(c, !inPidNs)...)
 	exited := true
+	outsideKill := false
 	code, sig := 0, 0
 	how := src.Int(10, "ending")
 	switch {
@@ -113,10 +114,29 @@ func c09Run(c *vcore.Ctx) *vcore.Violation {
 			mode = "threadraise"
 		}
 		script = append(script, mode, fmt.Sprint(sig), "sleep", "2000", "exit", "99")
+	case kind != "container_syncafter" && src.Bool(1, 2, "killed_from_outside"): // (after-exec sync hands out the init's pid, not the program's)
+		// SIGKILL from somebody else (the OOM killer, an operator, the hard CPU limit): the table says
+		// Time Limit Exceeded, in every runner; also the init of a pid namespace cannot ignore it
+		exited, sig = false, int(syscall.SIGKILL)
+		outsideKill = true
+		script = append(script, "sleep", "20000", "exit", "98")
 	default:
 		// a real fault: works for every runner, also for the init of a pid namespace
 		exited, sig = false, int(syscall.SIGSEGV)
 		script = append(script, "segv")
+	}
+	pidCh := make(chan int, 4)
+	var sync func(int) error
+	if outsideKill {
+		sync = func(pid int) error { pidCh <- pid; return nil }
+		go func() {
+			select {
+			case pid := <-pidCh:
+				time.Sleep(40 * time.Millisecond)
+				syscall.Kill(pid, syscall.SIGKILL)
+			case <-time.After(50 * time.Second):
+			}
+		}()
 	}
 	c.Logf("runner=%s script=%v", kind, script)
 	c.Event("runner:" + kind)
@@ -126,9 +146,9 @@ func c09Run(c *vcore.Ctx) *vcore.Violation {
 		switch kind {
 		case "ptrace":
 			h := &recHandler{}
-			res, _ = kRunPtrace(context.Background(), &kOpts{script: script, filter: kFilterAllowAllBut(nil, nil), handler: h})
+			res, _ = kRunPtrace(context.Background(), &kOpts{script: script, filter: kFilterAllowAllBut(nil, nil), handler: h, syncFunc: sync})
 		case "unshare":
-			res, _ = kRunUnshare(context.Background(), &kOpts{script: script})
+			res, _ = kRunUnshare(context.Background(), &kOpts{script: script, syncFunc: sync})
 		default:
 			ct := sharedContainer()
 			if ct == nil {
@@ -137,6 +157,9 @@ func c09Run(c *vcore.Ctx) *vcore.Violation {
 			e := &kExec{script: script, syncAfter: kind == "container_syncafter"}
 			if src.Bool(1, 2, "withsync") {
 				e.syncFunc = func(int) error { return nil }
+			}
+			if sync != nil {
+				e.syncFunc = sync
 			}
 			res, _ = ct.exec(context.Background(), e)
 		}
